@@ -11,6 +11,7 @@ EXPLANATION = (
     "(3) PATH — the copy is synced before the original is renamed away, and target->backup precedes tmp->target. Logical equality of content is not decided."
     " C28.6 = C18.3: the B-tree reachability walk follows every pointer an internal page stores."
     " C28.7: every Ok return of csr::segment_data_page_ids passes through decode_page_lists, the decoder CsrSegment::load uses."
+    " C28.8: the largest per-page data length accepted by each reader of blob pages (BlobStore::read and vacuum's mark_blob_chain; the test is normalised as a linear inequality over the decoded length) equals the chunk size BlobStore::write fills pages with."
 )
 
 V = "nervusdb_storage::vacuum::"
@@ -55,6 +56,7 @@ def cval(F, k):
 def run(ctx):
     F = ctx.facts
     ctx.rule("C28.1", "layout constants and byte ranges duplicated in vacuum.rs agree with the owning module")
+    blob_len_rule(ctx)
     ctx.rule("C28.2", "vacuum marks every page list a segment owns and selects WAL roots like recovery does")
     ctx.rule("C28.3", "copy is synced before the original is replaced; rename order target->backup then tmp->target")
     ctx.rule("C28.5", "the vacuumed file's next_page_id derives from the largest reachable page id (not from a page count)")
@@ -231,3 +233,110 @@ def run(ctx):
     ctx.instance("C28.7", "CsrSegment::load decodes the page lists through the same function: %s" % bool(F.reaches("nervusdb_storage::csr::CsrSegment::load", {"nervusdb_storage::csr::decode_page_lists"})))
     ctx.oblige(bool(F.reaches("nervusdb_storage::csr::CsrSegment::load", {"nervusdb_storage::csr::decode_page_lists"})), "C28.7", "load-uses-other-decoder",
                "CsrSegment::load no longer shares decode_page_lists with the vacuum enumerator: the two can disagree about which pages a segment owns", lb7.file)
+
+
+BLOB_READERS = ("nervusdb_storage::blob_store::BlobStore::read_direct", V + "mark_blob_chain")
+BLOB_WRITER = "nervusdb_storage::blob_store::BlobStore::write_direct"
+
+
+def blob_len_rule(ctx, rid="C28.8"):
+    """the largest per-page data length each blob-chain reader accepts equals the chunk size the writer fills pages with"""
+    from .. import paths
+    from ..facts import op_local, op_const
+    from ..mirutil import switch_on
+    from .c25 import _term
+    F = ctx.facts
+    ctx.rule(rid, "every reader of blob pages (BlobStore::read, vacuum's mark_blob_chain) accepts exactly the per-page lengths BlobStore::write produces")
+    wb = ctx.body(BLOB_WRITER)
+    W = None
+    for c in wb.calls():
+        if c.name.endswith("::chunks") and len(c.args) > 1:
+            k = op_const(c.args[1])
+            if k is not None:
+                W = F.const_value(k["named"]) if k.get("named") and k.get("v") is None else k.get("v")
+    ctx.oblige(isinstance(W, int), rid, rid + ":writer-chunk", "cannot read the chunk size BlobStore::write_direct fills pages with", wb.file)
+    if not isinstance(W, int):
+        return
+    n = 0
+    for fn in BLOB_READERS:
+        b = ctx.body(fn)
+        short = fn.split("::")[-1]
+        fails = paths.fail_blocks(b)
+        lens = set()
+        for c in b.calls():
+            if c.name.endswith("u16::from_le_bytes") or c.name.endswith("::from_le_bytes") and "u16" in (b.local_ty(c.dest[0]) if c.dest else ""):
+                lens.add(c.dest[0])
+        found = []
+        for x in range(len(b.blocks)):
+            if b.is_cleanup(x):
+                continue
+            sw = switch_on(b, x)
+            if sw is None or len(sw[2]) != 1:
+                continue
+            l, neg, arms, other = sw
+            sd = b.single_def(l)
+            if not sd or sd[2] != "assign" or sd[3][2][0] != "bin" or sd[3][2][1] not in ("Lt", "Le", "Gt", "Ge"):
+                continue
+            op = sd[3][2][1]
+            sides = [_lin(b, _term(b, sd[3][2][2]), lens), _lin(b, _term(b, sd[3][2][3]), lens)]
+            if sides[0] is None or sides[1] is None or (sides[0][0] + sides[1][0]) != 1:
+                continue
+            tb, fb = (other, arms[0][1]) if not neg else (arms[0][1], other)
+
+            def rejects(t):
+                for _ in range(3):
+                    if t in fails:
+                        return True
+                    tt = b.term(t)
+                    if tt[0] != "goto":
+                        return False
+                    t = tt[1]
+                return False
+            rt, rf = rejects(tb), rejects(fb)
+            if rt == rf:
+                continue
+            # cond: (L*a0 + c0) OP (L*a1 + c1); bring L to the left
+            if sides[0][0] == 1:
+                d = sides[1][1] - sides[0][1]
+                rel = {"Gt": ">", "Ge": ">=", "Lt": "<", "Le": "<="}[op]
+            else:
+                d = sides[0][1] - sides[1][1]
+                rel = {"Gt": "<", "Ge": "<=", "Lt": ">", "Le": ">="}[op]
+            if rf:
+                rel = {">": "<=", ">=": "<", "<": ">=", "<=": ">"}[rel]
+            # now: reject iff L rel d
+            if rel == ">":
+                T = d
+            elif rel == ">=":
+                T = d - 1
+            else:
+                continue  # a lower-bound test, not the page-capacity test
+            found.append((T, x))
+        ctx.oblige(bool(found), rid, "%s:%s:no-length-test" % (rid, short), "%s does not test the page's data length against the page capacity" % short, b.file)
+        for T, x in found:
+            n += 1
+            ctx.instance(rid, "%s accepts a data length up to %d; the writer fills pages with %d" % (short, T, W))
+            ctx.oblige(T == W, rid, "%s:%s:capacity" % (rid, short),
+                       "%s accepts a per-page data length of at most %d but BlobStore::write fills every non-final page with %d bytes: %s" %
+                       (short, T, W, "a healthy multi-page blob is reported as corrupt" if T < W else "a length beyond the page is accepted"),
+                       "%s:%d" % (b.file, b.line_of_block(x)), sample={"reader": fn, "accepts_up_to": T, "writer_chunk": W})
+    ctx.floor(rid, "blob length tests", n, 2)
+
+
+def _lin(b, t, lens):
+    """(coefficient of the page's data-length local, constant) of a term, or None when other unknowns occur"""
+    from ..mirutil import value_root
+    if isinstance(t, int):
+        return (0, t)
+    if isinstance(t, tuple) and t and t[0] == "l":
+        return (1, 0) if value_root(b, t[1]) in lens or t[1] in lens else None
+    if isinstance(t, tuple) and t and t[0] == "+":
+        a = c = 0
+        for x in t[1]:
+            r = _lin(b, x, lens)
+            if r is None:
+                return None
+            a += r[0]
+            c += r[1]
+        return (a, c)
+    return None
